@@ -203,6 +203,7 @@ class FakeSocketModule:
         self.registry = []        # every socket ever created or accepted, strong references
         self.tls = False          # sockets made by socket() speak the ssl would-block vocabulary when True
         self.next_connect = None  # answer of the next connect_ex() call: 0 | errno value (consumed once; default 0)
+        self.bind_fail = False    # the next bind() fails with EADDRINUSE (consumed once)
         self.ha = ha
         self.listeners = []
         for k in dir(realsocket):
@@ -235,6 +236,10 @@ class DualSocket(FakeConn):
         self.refuse = 0           # connect_ex results to return before succeeding
 
     def bind(self, ha):
+        self._dead()
+        if self.mod.bind_fail:
+            self.mod.bind_fail = False
+            raise OSError(errno.EADDRINUSE, "Address already in use")
         self.listening = True
         self.ha = (ha[0] or "127.0.0.1", ha[1] or 56000)
         self.mod.listeners.append(self)
